@@ -1,10 +1,10 @@
 (* Property C04 -- the lifted IL computes the documented result and flags for every operand value.
-   Statements only; proofs are in Proofs/AluProofs.v, ExecProofs.v, ExecProofs2.v, ExecMemProofs.v, ExecAluMemProofs.v, ExecLoopProofs.v, ExecRmwProofs.v, ExecRmwProofs2.v and ExecMvMemProofs.v.
+   Statements only; proofs are in Proofs/AluProofs.v, ExecProofs.v, ExecProofs2.v, ExecMemProofs.v, ExecAluMemProofs.v, ExecLoopProofs.v, ExecRmwProofs.v, ExecRmwProofs2.v, ExecMvMemProofs.v and ExecExProofs.v.
    Model: Model/IL.v (evaluator) + Model/Lift.v (lifter), tied to the Python code by IL-text and execution
    correspondence on every run; documented semantics: Model/Spec.v (README instruction tables). *)
 From Coq Require Import ZArith NArith List Bool.
 From BE Require Import Model.TableTypes Gen.Tables Model.Regs Model.Decode Model.IL Model.Lift Model.Static Model.Spec
-  Model.Emu Proofs.AluProofs Proofs.ExecProofs Proofs.AccessProofs Proofs.ExecProofs2 Proofs.ExecProofs3 Proofs.ExecMemProofs Proofs.ExecPtrProofs Proofs.ExecStackProofs Proofs.ExecAluMemProofs Proofs.ExecLoopProofs Proofs.ExecRmwProofs Proofs.ExecRmwProofs2 Proofs.ExecMvMemProofs.
+  Model.Emu Proofs.AluProofs Proofs.ExecProofs Proofs.AccessProofs Proofs.ExecProofs2 Proofs.ExecProofs3 Proofs.ExecMemProofs Proofs.ExecPtrProofs Proofs.ExecStackProofs Proofs.ExecAluMemProofs Proofs.ExecLoopProofs Proofs.ExecRmwProofs Proofs.ExecRmwProofs2 Proofs.ExecMvMemProofs Proofs.ExecExProofs.
 Import ListNotations.
 Open Scope Z_scope.
 
@@ -146,6 +146,20 @@ Proof.
   split; [exact mvmm_opcodes_check | exact mvmm_modes_are_the_prefix_table].
 Qed.
 Print Assumptions C04_mv_imem_imem_exact.
+
+(* EX (m),(n), byte exchange between two internal-memory operands, no prefix and each of the 15 prefixes, every m and n: the two
+   cells - first operand through the prefix's first mode, second through its second mode, for the reads AND the write-backs -
+   swap their bytes and nothing else architectural changes (scratch registers outside the comparison).  Guard: the first operand
+   is not the BP, PX or PY cell itself - the lifted IL re-reads those cells to address the second write (recorded finding) *)
+Theorem C04_ex_imem_imem_exact_partial :
+  (forall c, In c pre_choices -> forall n1 n2, (n1 < 256)%N -> (n2 < 256)%N -> forall addr s, mem_wf s -> TWx s ->
+   forall dm, mode_of c false = Some dm ->
+   fst (imem_cell s dm n1) <> imem py_imem_BP -> fst (imem_cell s dm n1) <> imem py_imem_PX -> fst (imem_cell s dm n1) <> imem py_imem_PY ->
+   exists s' t, exec_decoded (mk_pre c 192 [OIMem 1 n1; OIMem 1 n2] 3) (first_byte c 192) addr s = XOk s' /\
+                spec_exec (mk_pre c 192 [OIMem 1 n1; OIMem 1 n2] 3) addr s = Some t /\ arch_eqT s' t) /\
+  (d_cls (entry_of 192), d_ops (entry_of 192)) = (I_EX, [PIMem 1; PIMem 1]).
+Proof. split; [exact ex_imem_imem | exact ex_opcode_check]. Qed.
+Print Assumptions C04_ex_imem_imem_exact_partial.
 
 (* read-modify-write on internal memory: ADD/SUB/ADC/SBC/AND/OR/XOR (n),imm and (n),A, INC/DEC (n), with no prefix and with each
    of the 15 prefixes, every n, every immediate, every carry-in, byte memory: the cell the prefix's addressing mode names holds
